@@ -646,6 +646,29 @@ fn adapters_script(src: &mut Src, ctx: &mut Ctx) -> CaseResult {
     }
     let exp: Vec<W> = (0..6u16).map(|i| if i as usize == fail_at { 0xdead } else { i }).collect();
     vcheck!(sink == exp, "C17/callback_writer", "callback saw {:x?}, expected {:x?}", sink, exp);
+    // `extend_from_iter`: "Writes a sequence of Words to the data sink, short-circuiting on error" - nothing is written after
+    // the refused word and the iterator is not drained beyond it
+    let mut sink3: Vec<W> = Vec::new();
+    {
+        let mut cb = FallibleCallbackWriteWords::new(|w: W| {
+            if sink3.len() == fail_at {
+                sink3.push(0xdead);
+                Err(7u8)
+            } else {
+                sink3.push(w);
+                Ok(())
+            }
+        });
+        let mut it = 0..6u16;
+        let r = WriteWords::extend_from_iter(&mut cb, it.by_ref());
+        let e = if fail_at < 6 { Err(7u8) } else { Ok(()) };
+        vcheck!(r == e, "C17/extend_from_iter_short_circuit", "extend_from_iter over 6 words with the sink failing at word {} returned {:?}, expected {:?}", fail_at, r, e);
+        let left: Vec<u16> = it.collect();
+        let exp_left: Vec<u16> = ((fail_at as u16 + 1).min(6)..6).collect();
+        vcheck!(left == exp_left, "C17/extend_from_iter_short_circuit", "sink failing at word {}: the iterator still holds {:?}, expected {:?}", fail_at, left, exp_left);
+    }
+    let exp3: Vec<W> = (0..6u16).take(fail_at + 1).map(|i| if i as usize == fail_at { 0xdead } else { i }).collect();
+    vcheck!(sink3 == exp3, "C17/extend_from_iter_short_circuit", "sink failing at word {}: the callback saw {:x?}, expected {:x?}", fail_at, sink3, exp3);
     let mut sink2: Vec<W> = Vec::new();
     {
         let mut cb = InfallibleCallbackWriteWords::new(|w: W| sink2.push(w));
